@@ -180,7 +180,7 @@ reg('LouvainIteration', ['sym', 'bip'], _est(H.LouvainIteration, None, DENDRO), 
 # ---- embedding
 SPEC = dict(EMB)
 SPEC.update({'eigenvalues_': 'svals'})
-reg('Spectral', ['symconn', 'bip'], _est(E.Spectral, None, SPEC, dict(n_components=2)), cls=E.Spectral)
+reg('Spectral', ['symconn', 'sym', 'bip'], _est(E.Spectral, None, SPEC, dict(n_components=2)), cls=E.Spectral)
 SV = dict(EMB)
 SV.update({'singular_values_': 'svals'})
 reg('SVD', ['sq', 'bip'], _est(E.SVD, None, SV, dict(n_components=2)), cls=E.SVD)
